@@ -39,7 +39,7 @@ REQUIRED_BUCKETS = {"quick": ["a:float32", "a:float64", "a:longdouble", "b:fragm
                               "d:spelling", "c:dispersity-with-cutoff", "c:magnetic-2d", "switch:single-precision-libraries-not-allowed", "system-build:float32", "system-build:float64", "system-build:longdouble", "frag:adjacent-double", "frag:string", "frag:hexfloat", "frag:suffixed",
                               "frag:int-promotion", "frag:exponent-identifier", "frag:multiline-comment",
                               "c:q-exactly-zero", "c:q-exactly-on-particle-axes", "composite:with-python-component",
-                              "shipped:single!", "shipped:quad!", "shipped:double!"]}
+                              "shipped:single!", "shipped:quad!", "shipped:double!", "two-precisions-built-at-the-same-time"]}
 REQUIRED_BUCKETS["thorough"] = REQUIRED_BUCKETS["quick"]
 
 FUNCS = set("sin cos tan asin acos atan sinh cosh tanh asinh acosh atanh atan2 erf erfc tgamma exp exp2 exp10 expm1 "
@@ -287,6 +287,8 @@ def gen_cases(tier, seed):
         cases.append({"id": "noflag/%s-%s" % (m, sp), "kind": "noflag", "model": m, "spelling": sp, "group": "nf-" + m, "cost": 3})
     for m, sp in (("sphere", "single!"), ("cylinder", "quad!"), ("sphere", "double!"), ("ellipsoid", "single")):
         cases.append({"id": "shipped/%s-%s" % (m, sp), "kind": "shipped", "model": m, "spelling": sp, "group": "sh-" + m + sp, "cost": 3})
+    for m in ("guinier", "sphere"):
+        cases.append({"id": "together/" + m, "kind": "together", "model": m, "group": "tg-" + m, "cost": 6})
     for e in COMPOSITES:
         cases.append({"id": "composite/" + e, "kind": "composite", "expr": e, "group": "comp-" + e, "cost": 4})
     return cases
@@ -600,6 +602,47 @@ def run_shipped(case, rec):
     rec.set_shape(("shipped", name, spelling), True)
 
 
+def run_together(case, rec):
+    """The same model requested in two precisions by two processes at the same time against an empty cache (parallel
+    workers of a comparison script): each gets a library built from its own converted source."""
+    import subprocess, json, tempfile, shutil
+    name = case["model"]
+    prog = (
+        "import json, sys, numpy as np\n"
+        "from sasmodels import core, direct_model\n"
+        "q = [np.array([0.011, 0.043, 0.17])]\n"
+        "m = core.load_model(%r, dtype=sys.argv[1], platform='dll')\n"
+        "I = direct_model.call_kernel(m.make_kernel(q), {})\n"
+        "print('RTMOUT ' + json.dumps({'dtype': str(np.dtype(m.dtype)), 'I': [float(x) for x in I]}))\n" % name)
+    work = tempfile.mkdtemp(prefix="c15-together-", dir=os.environ.get("RTM_SCRATCH"))
+    try:
+        ref = {}
+        env0 = dict(os.environ, SAS_DLL_PATH=os.path.join(work, "ref-dll"), TMPDIR=work)
+        for sp in ("double!", "single!", "quad!"):
+            r = subprocess.run([core.PY, "-c", prog, sp], capture_output=True, text=True, timeout=600, env=env0)
+            ref[sp] = [json.loads(l[7:]) for l in r.stdout.splitlines() if l.startswith("RTMOUT ")][0]
+        for rnd, pair in enumerate((("double!", "single!"), ("quad!", "double!"), ("single!", "quad!"))):
+            env = dict(os.environ, SAS_DLL_PATH=os.path.join(work, "dll-%d" % rnd), TMPDIR=work,
+                       CC="%s %s" % (core.PY, os.path.join(os.path.dirname(os.path.abspath(__file__)), "_c15_cc.py")))
+            procs = [subprocess.Popen([core.PY, "-c", prog, sp], stdout=subprocess.PIPE, stderr=subprocess.PIPE, text=True, env=env)
+                     for sp in pair]
+            outs = [p_.communicate(timeout=600) for p_ in procs]
+            # and once more, one after the other, from the cache the simultaneous builds left behind
+            later = [subprocess.run([core.PY, "-c", prog, sp], capture_output=True, text=True, timeout=600, env=env) for sp in pair]
+            for sp, (so, se), lt in zip(pair, outs, later):
+                for when, text, err in (("simultaneous first use", so, se), ("later, from the cache left behind", lt.stdout, lt.stderr)):
+                    got = [json.loads(l[7:]) for l in text.splitlines() if l.startswith("RTMOUT ")]
+                    ok = bool(got) and got[0]["dtype"] == ref[sp]["dtype"] and got[0]["I"] == ref[sp]["I"]
+                    rec.check("builds_and_agrees_with_double", ok,
+                              None if ok else {"model": name, "requested": sp, "other_process_requested": [x for x in pair if x != sp],
+                                               "when": when, "got": got[:1], "same request alone": ref[sp], "stderr": err[-300:]},
+                              key="C15/precisions-built-together")
+        rec.bucket("two-precisions-built-at-the-same-time")
+        rec.set_shape(("together", name), True)
+    finally:
+        shutil.rmtree(work, ignore_errors=True)
+
+
 def run_system(case, rec):
     """The distribution path (core.precompile_dlls -> make_dll(system=True)): the C text handed to the compiler is the
     converted text, and the library evaluates like the ordinary build of that precision."""
@@ -660,6 +703,8 @@ def run_case(case, rec):
         return run_noflag(case, rec)
     if case["kind"] == "shipped":
         return run_shipped(case, rec)
+    if case["kind"] == "together":
+        return run_together(case, rec)
     {"src": run_src, "frag": run_frag, "build": run_build, "spell": run_spell, "composite": run_composite}[case["kind"]](case, rec)
 
 
